@@ -2,7 +2,7 @@
 
 ALL_FAMILIES = "seeds_sample,grammar,layout,soup,bytes,mutate,dirsoup"
 
-FMT_BINDING_C01 = ["marks", "lv", "prec", "wc", "nd", "out", "*"]
+FMT_BINDING_C01 = ["marks", "lv", "prec", "wc", "wp", "wcn", "sx", "nd", "out", "*"]
 
 PROPS = {
     "C01": {
@@ -58,7 +58,7 @@ PROPS = {
         "level": "other",
         "lean": ["PasfmtModel.Props.C05"],
         "streams": [
-            {"stream": "fmt", "families": "marked", "quick": 6000, "thorough": 40000, "binding": ["cl", "out", "*"], "args": {"oracles": "c05"}},
+            {"stream": "fmt", "families": "marked", "quick": 6000, "thorough": 40000, "binding": ["cl", "wp", "sx", "out", "*"], "args": {"oracles": "c05"}},
         ],
         "oracle_prefixes": ["c05", "glue"],
         "abnormal_binding": False,
@@ -91,6 +91,8 @@ PROPS = {
         "lean": ["PasfmtModel.Props.C11"],
         "streams": [
             {"stream": "fmt", "families": "seeds_sample,grammar,layout,marked,boundary", "quick": 3000, "thorough": 40000, "binding": ["out", "*"], "args": {"oracles": "c11"}},
+            # every wrap column of small single-statement programs (full sweep of the three clauses)
+            {"stream": "fmt", "name": "mini", "families": "c11mini", "quick": 1500, "thorough": 20000, "binding": ["out", "*"], "args": {"oracles": "c11"}},
         ],
         "oracle_prefixes": ["c11", "glue"],
         "abnormal_binding": False,
@@ -148,7 +150,7 @@ PROPS = {
         "lean": ["PasfmtModel.Props.C07"],
         "streams": [
             {"stream": "fmt", "families": ALL_FAMILIES + ",regions", "quick": 3000, "thorough": 40000,
-             "binding": ["cl", "marks", "lv", "prec", "wc", "out", "*"], "args": {"oracles": "c07"}},
+             "binding": ["cl", "marks", "lv", "prec", "wc", "wp", "wcn", "sx", "out", "*"], "args": {"oracles": "c07"}},
         ],
         "oracle_prefixes": ["c07", "glue"],
         "abnormal_binding": False,
@@ -166,7 +168,7 @@ PROPS = {
         "lean": ["PasfmtModel.Props.C08"],
         "streams": [
             {"stream": "fmt", "families": ALL_FAMILIES + ",pairs,condinline,mlsshift", "quick": 3500, "thorough": 40000,
-             "binding": ["pre", "out", "*"], "args": {"oracles": "c08"}},
+             "binding": ["pre", "wp", "wcn", "sx", "out", "*"], "args": {"oracles": "c08"}},
         ],
         "oracle_prefixes": ["c08", "glue"],
         "abnormal_binding": False,
@@ -212,7 +214,7 @@ PROPS = {
         "lean": ["PasfmtModel.Props.C12"],
         "streams": [
             {"stream": "fmt", "families": "mlsfam,mlsfam,mlsshift,seeds_sample,layout,bytes", "quick": 3000, "thorough": 40000,
-             "binding": ["wc", "prec", "out", "*"], "args": {"oracles": "c12"}},
+             "binding": ["wc", "wp", "wcn", "sx", "prec", "out", "*"], "args": {"oracles": "c12"}},
         ],
         "oracle_prefixes": ["c12", "glue"],
         "abnormal_binding": False,
